@@ -106,6 +106,56 @@ func Hostile(c *sexp.S, out *Out) {
 		out.Put("%s", res)
 	}
 	_ = kept
+	out.Put("%s", orderProbe())
+}
+
+// orderProbe: operands are read when their turn comes. A host function that writes a variable between two reads of that
+// variable in ONE expression makes the order of evaluation visible (left operand, then the call, then the right operand;
+// arguments left to right): the expected texts follow from Yarn's evaluation order alone.
+func orderProbe() (res string) {
+	defer func() {
+		if r := recover(); r != nil {
+			res = "ORDER bad PANIC"
+		}
+	}()
+	storer := variable.NewInMemoryStorer()
+	dr, err := ysgo.NewDialogueRunner(storer, "o", strings.NewReader("title: Order\n---\n<<declare $n = 1>>\n<<declare $f = false>>\n"+
+		"A {$n + bump() + $n}\nB {three($n, bump(), $n)}\nC {$f or (raise() and $f)}\nD {$n * 2 - bump() * $n}\n===\n"))
+	if err != nil {
+		return "ORDER bad load"
+	}
+	dr.AddFunction("bump", func(a []*variable.Value) (*variable.Value, error) {
+		cur, _ := storer.GetValue("n")
+		storer.SetNumberValue("n", *cur.Number+10)
+		v := 1.0
+		return &variable.Value{Number: &v}, nil
+	})
+	dr.AddFunction("raise", func(a []*variable.Value) (*variable.Value, error) {
+		storer.SetBooleanValue("f", true)
+		v := true
+		return &variable.Value{Boolean: &v}, nil
+	})
+	dr.AddFunction("three", func(a []*variable.Value) (*variable.Value, error) {
+		parts := make([]string, len(a))
+		for i, x := range a {
+			parts[i] = x.ToString()
+		}
+		v := strings.Join(parts, ",")
+		return &variable.Value{String: &v}, nil
+	})
+	var got []string
+	for i := 0; i < 4; i++ {
+		el, err := dr.Next(0)
+		if err != nil || el == nil || el.Line == nil {
+			return "ORDER bad " + strings.Join(got, "|") + " then no line"
+		}
+		got = append(got, el.Line.Text)
+	}
+	// A: 1 + 1 + 11; B: 11, 1, 21; C: false or (true and true); D: 21*2 - 1*31
+	if want := "A 13|B 11,1,21|C True|D 11"; strings.Join(got, "|") != want {
+		return "ORDER bad " + strings.Join(got, "|") + " wanted " + want
+	}
+	return "ORDER ok"
 }
 
 func init() { Register("hostile", Hostile) }
